@@ -143,7 +143,7 @@ def rule_shield(ctx):
     p = ctx.p
     ctx.rule("C14.SHIELD", "the data-connection wait never cancels the session's presence futures: the awaited aggregate is shielded and nothing in the guard cancels it")
     w = p.wrapper_of("ConnectionConditions")
-    waits = [c for c in walk_no_nested(w) if isinstance(c, ast.Call) and (dotted(c.func) or "").endswith("wait_for")]
+    waits = [c for c in walk_no_nested(w) if isinstance(c, ast.Call) and (dotted(c.func) or "") in ("asyncio.wait_for", "wait_for")]
     plain_waits = [c for c in walk_no_nested(w) if isinstance(c, ast.Call) and (dotted(c.func) or "") in ("asyncio.wait", "wait")]
     ok = bool(waits) or bool(plain_waits)    # asyncio.wait() never cancels what it waits for: nothing to shield
     for c in waits:
@@ -206,4 +206,56 @@ def rule_last(ctx):
     ctx.borrow(rule_ack, {"C01.ACK": "C14.LAST"})
 
 
-RULES = [rule_outer, rule_abor, rule_done, rule_close, rule_exit, rule_shield, rule_cli, rule_last]
+def provably_falsy_return(p, fn, v, depth=2):
+    """the returned expression is None / False on every evaluation: a constant, or a call of a method of the same class / module function none of whose
+    returns carries a value"""
+    if v is None:
+        return True
+    if isinstance(v, ast.Constant):
+        return v.value in (None, False)
+    if isinstance(v, ast.Await):
+        v = v.value
+    if isinstance(v, ast.Call) and depth > 0:
+        callee = None
+        if isinstance(v.func, ast.Attribute) and isinstance(v.func.value, ast.Name) and v.func.value.id in ("self", "cls"):
+            c = p.enclosing_class(fn)
+            names = [c.name] if c is not None else []
+            while names:
+                cn = names.pop()
+                if cn in p.classes:
+                    ms = p.methods(cn)
+                    if v.func.attr in ms:
+                        callee = ms[v.func.attr]
+                        break
+                    names += [last_attr(b) for b in p.cls(cn).bases if last_attr(b)]
+        if callee is not None:
+            rets = [r for r in walk_no_nested(callee) if isinstance(r, ast.Return)]
+            return all(provably_falsy_return(p, callee, r.value, depth - 1) for r in rets) and not any(isinstance(y, (ast.Yield, ast.YieldFrom)) for y in walk_no_nested(callee))
+    return False
+
+
+def rule_cm(ctx):
+    p = ctx.p
+    ctx.rule("C14.CM", "no context manager of the package can swallow an exception: __exit__/__aexit__ never return a value that may be true, and no `return`/`break`/`continue` "
+                       "sits in a `finally` block (either would silently drop an in-flight CancelledError - the abort - or a backend error)")
+    n = 0
+    for q, fn in p.functions.items():
+        if fn.name in ("__exit__", "__aexit__"):
+            n += 1
+            bad = [r for r in walk_no_nested(fn) if isinstance(r, ast.Return) and not provably_falsy_return(p, fn, r.value)]
+            ctx.ob("C14.CM", bad[0] if bad else fn, f"{q} returns nothing that could be true", not bad,
+                   f"{q} returns `{src(bad[0].value)[:50] if bad else ''}`: a true value makes the `with` statement swallow the exception that is leaving it "
+                   "(a CancelledError from ABOR is lost: no 426/226, the transfer is reported complete; a parser's ValueError turns into an UnboundLocalError)",
+                   construct=f"cm:{q}:returns value")
+        for t in walk_no_nested(fn):
+            if isinstance(t, ast.Try) and t.finalbody:
+                for x in [y for s_ in t.finalbody for y in walk_self(s_)]:
+                    if isinstance(x, ast.Return) or (isinstance(x, (ast.Break, ast.Continue)) and not any(isinstance(a_, (ast.For, ast.While, ast.AsyncFor)) and any(x is z for z in ast.walk(a_))
+                                                                                                           for s_ in t.finalbody for a_ in walk_self(s_))):
+                        ctx.fail("C14.CM", x, f"{q}: `{src(x)[:40]}` inside a `finally` block discards the exception in flight (a cancellation is swallowed: ABOR is never answered 426/226)",
+                                 construct=f"cm:{q}:jump in finally")
+    if n < 4:
+        ctx.floor_errors.append(f"rule=C14.CM: {n} __exit__/__aexit__ methods (floor 4)")
+
+
+RULES = [rule_outer, rule_abor, rule_done, rule_close, rule_exit, rule_shield, rule_cli, rule_last, rule_cm]
